@@ -28,12 +28,20 @@ static void drop_bytes(long long k)
 	}
 }
 
+static size_t src_left(void) { size_t t = 0; for (int i = cur; i < nblk; i++) t += blen[i]; return t; }
+
+/* script entry g >= 0: well-behaved skipper, skips min(g, request, what is left);
+ * -999: answers more than asked; other negatives: error code */
 static int64_t skip_cb(struct archive *x, void *d, int64_t request)
 {
-	(void)x; (void)d; (void)request;
+	(void)x; (void)d;
 	if (curskip >= nskips) return 0;
 	long long g = skips[curskip++];
-	if (g > 0) drop_bytes(g);
+	if (g == -999) return request + 1;
+	if (g < 0) return g;
+	if (g > request) g = request;
+	if ((size_t)g > src_left()) g = (long long)src_left();
+	drop_bytes(g);
 	return g;
 }
 
